@@ -53,9 +53,9 @@ class RelayStub(protocol.Protocol):
         if self.token is None and b"\n" in self.buf:
             line, self.buf = self.buf.split(b"\n", 1)
             self.token = line.split(b" ")[2]
-            other = RelayStub.waiting.pop(self.token, None)
+            other = type(self).waiting.pop(self.token, None)
             if other is None:
-                RelayStub.waiting[self.token] = self
+                type(self).waiting[self.token] = self
             else:
                 self.peer, other.peer = other, self
                 for x in (self, other):
@@ -89,9 +89,14 @@ class SelWorld:
         self.kinds, self.scripts, self.rng = kinds, scripts, rng
         self.logged = Logged()
         log.addObserver(self.logged)
-        relay = "tcp:10.9.9.9:%d" % RELAY_PORT if "relay" in kinds.values() else None
+        relays = sorted(l for l, k in kinds.items() if k == "relay")
+        # one relay: both parties are configured with it.  Two relays: each party has its own and learns the other's
+        # from the peer's hints, so both dial both (two relay contenders of equal priority)
+        self.relay_port = {l: RELAY_PORT + i for i, l in enumerate(relays)}
+        relay = "tcp:10.9.9.9:%d" % RELAY_PORT if relays else None
+        relay_r = "tcp:10.9.9.10:%d" % (RELAY_PORT + 1) if len(relays) > 1 else relay
         self.S = transit.TransitSender(relay, reactor=reactor)
-        self.R = transit.TransitReceiver(relay, reactor=reactor)
+        self.R = transit.TransitReceiver(relay_r, reactor=reactor)
         self.S.set_transit_key(KEY)
         self.R.set_transit_key(KEY)
         hs, hr = [], []
@@ -99,9 +104,12 @@ class SelWorld:
         self.R.get_connection_hints().addCallback(hr.append)
         self.portS = [h["port"] for h in hs[0] if h["type"] == "direct-tcp-v1"][0]
         self.portR = [h["port"] for h in hr[0] if h["type"] == "direct-tcp-v1"][0]
-        if relay:
-            f = protocol.Factory.forProtocol(RelayStub)
-            reactor.listenTCP(RELAY_PORT, f)
+        for l in relays:
+            f = protocol.Factory.forProtocol(type("RelayStub_" + l, (RelayStub,), {"waiting": {}}))
+            reactor.listenTCP(self.relay_port[l], f)
+        if len(relays) > 1:
+            self.S.add_connection_hints([h for h in hr[0] if h["type"] == "relay-v1"])
+            self.R.add_connection_hints([h for h in hs[0] if h["type"] == "relay-v1"])
         if "s2r" in kinds.values():
             self.S.add_connection_hints([h for h in hr[0] if h["type"] == "direct-tcp-v1"])
         if "r2s" in kinds.values():
@@ -192,9 +200,10 @@ class SelWorld:
             link = reactor.complete(self._attempts_to(self.portS, self.R)[0])
             self.links[l] = {"R": (link, 0), "S": (link, 1)}
         elif k == "relay":
-            self._run_timers_until(lambda: len(self._attempts_to(RELAY_PORT, self.S)) > 0 and len(self._attempts_to(RELAY_PORT, self.R)) > 0)
-            ls = reactor.complete(self._attempts_to(RELAY_PORT, self.S)[0])
-            lr = reactor.complete(self._attempts_to(RELAY_PORT, self.R)[0])
+            port = self.relay_port[l]
+            self._run_timers_until(lambda: len(self._attempts_to(port, self.S)) > 0 and len(self._attempts_to(port, self.R)) > 0)
+            ls = reactor.complete(self._attempts_to(port, self.S)[0])
+            lr = reactor.complete(self._attempts_to(port, self.R)[0])
             self.links[l] = {"S": (ls, 0), "R": (lr, 0)}
         else:
             port = self.portS if k.endswith("S") else self.portR
@@ -393,6 +402,8 @@ CONFIGS = {
     "strangers2": ({"b": "r2s", "x": "wrongkeyS", "y": "strangerR"}, {"x": ["RHx"], "y": ["go", "junk"]}),
     "only_strangers": ({"x": "wrongkeyS", "y": "wrongkeyR"}, {"x": ["RHx"], "y": ["SHx", "go"]}),
     "three": ({"a": "s2r", "b": "r2s", "c": "relay"}, {}),
+    # each party has its own relay: two relay contenders of equal priority on both sides
+    "two_relays": ({"c": "relay", "d": "relay"}, {}),
 }
 
 INVARIANTS = ["AtMostOneGo", "GoOnlyAfterRH", "ReceiverNeedsGo", "SameLink", "KeyHoldersOnly", "ResultIsRecords", "OthersClosed",
